@@ -767,6 +767,20 @@ def apply_model(interp, st, t, b, record):
         # slice -> array: Ok iff len == N
         r = referent(interp, st, args[0])
         mm = re.search(r"\[u8; (\d+)(_usize)?\]", ga)
+        # integer -> integer: Ok whenever the value range of the source fits the target type (usize/u64 from u8/u16/u32 always)
+        mi = re.fullmatch(r"\[(u8|u16|u32|u64|usize|i32|i64|isize), (u8|u16|u32|u64|usize|i32|i64|isize)\]", ga or "")
+        if mi and dest and not dest.get("p"):
+            tgt_ty, src_ty = mi.group(1), mi.group(2)
+            lo_, hi_ = interp.range_of(st, args[0])
+            dt_ = fresh_dest()
+            if lo_ != -INF and hi_ != INF and lo_ >= TYPE_RANGE[tgt_ty][0] and hi_ <= TYPE_RANGE[tgt_ty][1]:
+                st.tags["L%d" % dest["l"]] = OKN
+                if dt_:
+                    st.z.set_range(dt_ + ".v0.f0", lo_, hi_)
+                    ta_ = interp.term_of_operand(st, args[0])
+                    if ta_ and ta_[0] != "0":
+                        st.z.eq(dt_ + ".v0.f0", ta_[0], 0)
+            return
         fresh_dest()
         if r and mm and dest and not dest.get("p"):
             n = int(mm.group(1))
